@@ -104,6 +104,17 @@ class Evaluator:
             if qn in self.prog.consts:
                 v = self.prog.consts[qn]
                 return (v,) if isinstance(v, str) else v
+            # a constant of the repository (`constexpr engine_schema latest_v2_schema = engine_schema::x;`)
+            d = self.tu.ids.get(ref.get('id'))
+            if d is not None and d.get('kind') == 'VarDecl' and (d.get('constexpr') or 'const' in (d.get('type') or '')) \
+                    and getattr(self, '_const_depth', 0) < 4:
+                init = [x for x in children(d) if not x['kind'].endswith('Attr') and not x['kind'].endswith('Comment')]
+                if init:
+                    self._const_depth = getattr(self, '_const_depth', 0) + 1
+                    try:
+                        return self.ev(init[-1], {})
+                    finally:
+                        self._const_depth -= 1
             return UNKNOWN
         if k == 'MemberExpr':
             c = children(n)
